@@ -238,6 +238,15 @@ class EncPart(Part):
                 owed = rl - body
             if rl != size:
                 return "0,5"                              # reported size differs
+            if self.v5 and op[0] == "1" and len(cs[0]) >= 2 and cs[0][1] == "1":
+                # the CONNECT declined problem information: PUBACK/PUBREC/PUBREL/PUBCOMP/SUBACK/UNSUBACK carry no
+                # properties at all (their only properties are Reason String and User Property)
+                t = data[0] & 0xF0
+                bodyb = data[i:]
+                if t in (0x40, 0x50, 0x60, 0x70) and len(bodyb) > 3 and bodyb[3] != 0:
+                    return "0,10"
+                if t in (0x90, 0xB0) and len(bodyb) > 2 and bodyb[2] != 0:
+                    return "0,10"
             if peer_max and (i + rl) > peer_max:
                 return "0,8"                              # frame above the peer's maximum packet size
         return "1"
@@ -329,6 +338,7 @@ ENC_CLAUSES = {
     "6": "more payload bytes written than declared",
     "7": "a packet was written inside a streamed PUBLISH payload",
     "8": "the frame exceeds the peer's Maximum Packet Size",
+    "10": "an acknowledgement carries Reason String / User Properties although the CONNECT declined problem information",
     "9": "the bytes produced for a packet do not decode (validated decoder model) to the packet that was encoded",
 }
 DEC_CLAUSES = {
